@@ -22,7 +22,7 @@ sys.path.insert(0, str(Path(__file__).resolve().parent.parent / "tools"))
 import gen_schema  # noqa: E402
 
 PROPERTY = "C09"
-LEAN_TARGETS = ["QcelVerif.Props.C09", "QcelVerif.Driver.C09"]
+LEAN_TARGETS = ["QcelVerif.Props.C09", "QcelVerif.Props.C09Dict", "QcelVerif.Props.C09Hash", "QcelVerif.Props.C09Typed", "QcelVerif.Driver.C09"]
 DRIVER = "QcelVerif/Driver/C09.lean"
 THEOREMS = [
     ("QcelVerif.Schema.emit_conforms", "for every declaration environment, type and in-memory value: hasType v ty -> the JSON emitted for v (unset/None dropped, keys by alias, arrays flattened) validates against schemaOf ty under the generated definitions (any fuel; 3x the typing fuel suffices)"),
@@ -37,6 +37,28 @@ THEOREMS = [
     ("QcelVerif.MolSchema.exported_geometry_bohr", "exported geometry = stored geometry if units are Bohr, else stored * input_units_to_au if the record has one, else stored * default factor (factor a parameter), both versions"),
     ("QcelVerif.MolSchema.exported_fragments", "exported fragments are np.split(arange(nat), separators): blocks that list every atom once, in order, with block ends = separators"),
     ("QcelVerif.MolSchema.contiguize_refuses_noncontiguous", "a pattern of >= 2 fragments whose concatenation is not 0..nat-1 (skipped, repeated or interleaved atoms) is a ValidationError, never repaired"),
+    # --- Molecule.__init__ / dict() around the schema functions (Model/MolDict.lean, Props/C09Dict.lean)
+    ("QcelVerif.MolDict.after_from_schema_closed_form", "whatever record from_schema returned, the rest of Molecule.__init__ (to_schema dtype 2 -> _filter_defaults -> validated=True -> {**kwargs, **schema} -> title-cased symbols, float_prep'd geometry) succeeds and equals the closed form finish(merge(kwargs, filteredOf(molDict r)))"),
+    ("QcelVerif.MolDict.construct_sets_validated", "a successfully constructed Molecule has validated=True among its set fields"),
+    ("QcelVerif.MolDict.rebuild_validated_identity", "Molecule(**d) with d['validated']=True runs no validation, no rounding, no re-titling: the object holds exactly d"),
+    ("QcelVerif.MolDict.dict_fixed_point", "rebuild (dict m) = m for every Molecule m a validating construction returned, whatever the keywords, the from_arrays behaviour and the parameters"),
+    ("QcelVerif.MolDict.filter_drops_exactly_defaults", "_filter_defaults drops atomic_numbers always; masses+mass_numbers exactly when the masses ARE the default masses (exact equality, the repaired np.allclose test); real exactly when all real; atom_labels exactly when all empty; the three fragment keys exactly when the pattern is the single fragment 0..nat-1; every other key unchanged"),
+    ("QcelVerif.MolDict.filter_invisible_to_accessors", "for a full dictionary with one real flag per symbol, whose one-fragment case lists the molecular charge/multiplicity as the fragment's: masses/real/atom_labels/fragments/fragment_charges/fragment_multiplicities accessors return the same before and after _filter_defaults"),
+    ("QcelVerif.MolDict.filter_single_fragment_multiplicity_counterexample", "the proviso is needed (open finding C05-molecule-from-string-single-fragment-mult on the model): m=1, fm=[3], one fragment -> after the filter the accessor reports [1]"),
+    ("QcelVerif.MolDict.merge_schema_wins", "{**kwargs, **schema}: an entry of the schema wins over the caller's"),
+    ("QcelVerif.MolDict.merge_keeps_caller_entry", "{**kwargs, **schema}: a key only the caller gave survives (defaults the caller spelled out are kept by dict())"),
+    # --- hash link (Props/C09Hash.lean; C04 schema_roundtrip + bridge, C11 canon/hash)
+    ("QcelVerif.C09Hash.molecule_canon_of_record", "whatever keywords from_schema mapped to the record r (agreeing with it on the hash entries the caller spelled out; one-fragment proviso; title-case symbols), the Molecule object built has the canonical hash fields recMol r: symbols, masses, charge, multiplicity, real, float_prep of the exported Bohr geometry, fragment pattern, fragment charges/multiplicities, bonds"),
+    ("QcelVerif.C09Hash.recMol_inBohr", "r and the record from_schema(to_schema(r)) returns (inBohr r = C04 schemaImage r) have identical hash fields, the held geometry included (no hypothesis)"),
+    ("QcelVerif.C09Hash.exported_geometry_held", "the geometry a Molecule holds is float_prep of the stored geometry for a Bohr record and float_prep of stored * factor for an Angstrom record; the round-tripped record holds the same"),
+    ("QcelVerif.C09Hash.dict_roundtrip_same_canon", "C04 Inv, >= 1 atom, non-negative separators, hgeo/hre of schema_roundtrip, exact products: Molecule(validate=True, **to_schema(r, 2)) (C09 constructor model with the C04 from_arrays model plugged in) exists and has canonical fields recMol r"),
+    ("QcelVerif.C09Hash.dict_roundtrip_same_hash", "same hypotheses: that rebuilt Molecule has the same hash as, and is == to, every Molecule built from keywords that from_schema maps to r (C11 hash_of_canon, molEq_iff; SHA-1/float printing abstract)"),
+    ("QcelVerif.C09Hash.dict_rebuild_same_hash", "Molecule(**mol.dict()) (validated=True route) is mol itself, hence same hash and == ; no hypothesis"),
+    ("QcelVerif.C09Typed.molFields_tie", "the hand-written Molecule declaration used by the typing theorems IS the declaration regenerated from the live class on this run (checked at every build)"),
+    ("QcelVerif.C09Typed.dict_hasType", "every Molecule object of the constructor model with symbols and geometry set, a schema_name matching its pattern, bonds (if any) non-empty with order in [0,5] and well-typed further entries inhabits the declared type Molecule (hasType at fuel n+4), in any environment whose Molecule entry is that declaration"),
+    ("QcelVerif.C09Typed.inv_hasType", "the object the constructor builds from ANY record satisfying the record invariant whose bonds (if any) are non-empty with order in [0,5], whatever the caller's keywords, inhabits the declared type: no per-instance hasType check is needed for molecules"),
+    ("QcelVerif.C09Typed.molecule_conforms", "hence (root_conforms) the JSON emitted for every such Molecule validates against the generated root schema of Molecule"),
+    ("QcelVerif.C09Hash.revalidate_same_hash_partial", "PARTIAL: re-validating the sparse dict() has the same hash IF from_schema maps it to a record with the same hash fields and the held geometry, and float_prep is idempotent on it (from_arrays on sparse input is a hypothesis)"),
 ]
 TRANSLATORS = [gen_schema.main]
 TRUSTED_BASE = [
@@ -44,7 +66,10 @@ TRUSTED_BASE = [
     "pydantic-v1 (validation/coercion producing the in-memory instance; Model.schema() generation) is a PARAMETER: hand model schemaOf/declSchema of its generation rules for the occurring subset, tied per run by `declSchema(env) = exported` (Lean driver op `tie`) and by hasType on every generated instance",
     "tools/gen_schema.py: re-encodes Model.__fields__ as Ty terms and Model.schema() as Schema terms; drops annotation keywords (title, description, default, shape, units, $schema); picks the two schema_extra edit forms of models/basis.py from the exported schema (recorded in evidence)",
     "hand-written models Model/Schema.lean (emit = ProtoModel.dict + pydantic _iter + JSONArrayEncoder; Draft-04 validator for the occurring keywords; tiny matcher for the three `^(…)$` patterns) and Model/MolSchema.lean (to_schema.py:40-112, from_schema.py:27-190), tied by differential correspondence incl. perturbed (invalid) documents against python-jsonschema",
-    "from_arrays (C04/C05/C06) and Molecule.get_hash (C11) are parameters here: round trip through them is checked by the oracle only",
+    "hand-written model Model/MolDict.lean of Molecule.__init__ / _filter_defaults / {**kwargs, **schema} / dict() / the accessors (molecule.py:334-384, 449-509, 592-595, 1489-1513), tied by the driver op `construct` on generated keywords: the 19 modelled dict() entries exactly (geometry through the exact model of np.around: rndDouble products/quotients, zero band), the remaining keys (schema_name/version, provenance, extras, identifiers, id) by a rule stated in harness/c09.py:check_construct, and Molecule(**mol.dict()).dict() == mol.dict(); the embedding MolDict.molVal of that object as an in-memory value is tied by emit(molVal) == Molecule.json() (provenance/extras/identifiers/id aside) and hasType = T on every construction; pydantic's coercions (list -> ndarray, int -> float) are the identity on exact values and are not represented",
+    "from_arrays is a parameter of the C09 models (Model/MolSchema.lean, Model/MolDict.lean): in the driver its value is what the implementation's from_schema returned; in Props/C09Hash.lean it is C04's model (faOfC04) under C04's hypotheses (Inv, >= 1 atom, hgeo, hre; bridge scope: exact products, non-negative separators). Molecule.get_hash is C11's model: SHA-1 and float printing abstract; to_mass, float_prep (one coordinate) and str.title are parameters of the hash theorems (the driver runs concrete ones)",
+    "hypotheses of molecule_canon_of_record that are not proved from C04: `agreesB` (where _filter_defaults dropped the schema's entry of a hash key the caller spelled out, the caller's entry is the one from_arrays handed back; no caller bonds when the record has none) and `singleOkB` (one-fragment records list the molecular charge/multiplicity as the fragment's - false for the open finding C05-molecule-from-string-single-fragment-mult); both are evaluated by the driver on every generated construction (agreesB false = mismatch; singleOkB counted)",
+    "re-validation of a Molecule's own SPARSE dict() (route `revalidate`: from_arrays must re-derive the dropped defaults) is proved only under that hypothesis (revalidate_same_hash_partial); the from_data / json routes are differential (oracle) only",
     "harness/c09.py generators, encoders and the Python oracle; python-jsonschema 4.x Draft4Validator as the reference validator",
 ]
 ASSUMPTIONS = [
@@ -52,6 +77,7 @@ ASSUMPTIONS = [
     "instances are built through the public constructors (validation on), plus Molecule(validate=False) on already valid data; 0-atom molecules do not exist (from_arrays refuses them)",
     "to_schema with units='Bohr' and dtype 1 or 2 (dtype 'psi4' and Angstrom export are outside C09)",
     "np_out only changes container types and is not represented in the Lean model (both settings are compared by the harness)",
+    "Model/MolDict.lean: validating construction with orient=False, schema_version 2 (version 1 has no nested 'molecule' entry: KeyError, modelled; other versions: ValidationError), ASCII symbols; orient=True, geometry_noise != 8, nonphysical=True and Molecule(validate=False) without a validated flag are outside the model; Molecule-level hash theorem for dtype 2 (a dtype-1 dictionary is not a Molecule keyword set; dtype 1 is covered at record level)",
 ]
 RULE = (
     "instances: generated constructor kwargs for the six models (Provenance with extras; Molecule 1-7 atoms with optional "
@@ -61,14 +87,24 @@ RULE = (
     "instance -> hasType, emit, validate (Lean) vs json()/jsonschema (implementation); plus 3-6 single-point perturbations of "
     "every emitted document validated by both validators; molrecs from from_arrays (Bohr|Angstrom, with/without "
     "input_units_to_au) x dtype {1,2} x np_out {T,F}; malformed schema dicts (names/versions, interleaved/skipping/offset/empty "
-    "patterns, wrong-length arrays, short geometry). A case is distinct by (model, set of emitted key paths, array ranks) or by "
+    "patterns, wrong-length arrays, short geometry); Molecule keyword sets for the constructor model (1-6 atoms; defaults the caller "
+    "spells out - masses, real, atom_labels, atomic/mass numbers, one all-atom fragment -, masses within 1e-5..1e-7 of the defaults, "
+    "lower/upper-case symbols, coordinates inside/at the edge of float_prep's zero band and beyond the 8th decimal, validated=False, "
+    "schema_version 1/3 refusals) -> dict() keys and values vs the model, Molecule(**dict()).dict() identical. A case is distinct by (model, set of emitted key paths, array ranks) or by "
     "(outcome class, fragment shape) and non-trivial when it has an optional block, an alias, an array, or is refused."
 )
 LEVEL_TEXT = (
     "proof, partial: conformance is proved for every value of every declared type against the generated schema, and the generated "
     "schema is checked equal to the exported one on every run; that pydantic's runtime values inhabit the declared types is checked "
-    "per generated instance (hasType), not proved. Translation round trip is proved at record level with from_arrays as a parameter; "
-    "hash equality and Molecule-level rebuild are checked differentially only."
+    "per generated instance (hasType), not proved. Translation round trip is proved at record level with from_arrays as a parameter, and "
+    "with C04's from_arrays model plugged in (bridge). Molecule level: the constructor around the schema functions (_filter_defaults, "
+    "merge, title, float_prep, dict(), accessors) is modelled and tied exactly on generated keywords; dict_fixed_point (rebuild (dict m) = m) "
+    "is proved without hypotheses; dict_roundtrip_same_hash (the Molecule rebuilt with validation from to_schema(r, 2) has the hash of every "
+    "Molecule built from keywords mapped to r, and is ==) is proved from C04's schema_roundtrip + C11's hash_of_canon under C04's hypotheses "
+    "plus two checked-per-case provisos (agreesB, singleOkB) and with to_mass / float_prep / SHA-1 / float printing as parameters. Still "
+    "partial / differential only: re-validation of the sparse dict() (from_arrays on sparse input is a hypothesis), the from_data and json "
+    "routes, orient=True. hasType: proved for every validated Molecule (inv_hasType, so emit_conforms applies to all of them without a per-instance "
+    "check; the hand declaration is re-tied to the regenerated one at every build); for the other five models it is still checked per instance."
 )
 TECHNIQUE = "Lean 4 proof (structural/fuel induction over a type language and a Draft-04 validator; list lemmas for np.split) + per-run schema tie + differential correspondence against pydantic/jsonschema"
 
@@ -1371,6 +1407,220 @@ def run_partb(ctx, out: Outcome):
 
 
 # ------------------------------------------------------------------------------------------------------
+# part (c): Molecule.__init__ / dict() around the schema functions (Model/MolDict.lean)
+
+UNMODELLED_DICT_KEYS = {"schema_name", "schema_version", "provenance", "extras", "identifiers", "id"}
+
+
+def gen_construct_kwargs(rng):
+    """Molecule kwargs that exercise _filter_defaults / {**kwargs, **schema} / title / float_prep: defaults the
+    caller spells out (they survive the filter), near-default masses, one all-atom fragment, lower/upper-case
+    symbols, coordinates in float_prep's zero band and beyond the 8th decimal."""
+    from qcelemental import periodictable
+
+    kw = gen_molecule(rng, nmax=6, minimal_p=0.1)
+    kw.pop("provenance", None)  # always overwritten by from_schema's stamp; partial stamps are refused by from_arrays
+    n = len(kw["symbols"])
+    syms = kw["symbols"]
+    flat = [c for p in kw["geometry"] for c in p] if isinstance(kw["geometry"][0], list) else list(kw["geometry"])
+    if rng.random() < 0.35:
+        i = rng.randrange(len(flat))
+        flat[i] = flat[i] + rng.choice([3e-7, -3e-7, 5.1e-7, 5.2e-7, 4.9e-9, 5.000000001e-9, -0.0, 1e-12])
+    if rng.random() < 0.2:
+        i = rng.randrange(len(flat))
+        flat[i] = rng.choice([-0.0, 0.0, 2e-7, -5.12e-7])
+    kw["geometry"] = flat if rng.random() < 0.5 else [flat[3 * i : 3 * i + 3] for i in range(n)]
+    c = rng.random()
+    if c < 0.25:
+        kw["masses"] = [periodictable.to_mass(s) for s in syms]  # spelled-out defaults
+    elif c < 0.45:
+        kw["masses"] = [periodictable.to_mass(s) * rng.choice([1.0, 1.0, 1.000001, 1.0000001, 1.00001]) for s in syms]
+    if rng.random() < 0.2:
+        kw["real"] = [True] * n
+    if rng.random() < 0.15:
+        kw["atom_labels"] = [""] * n
+    if rng.random() < 0.2:
+        kw["atomic_numbers"] = [periodictable.to_Z(s) for s in syms]
+    if rng.random() < 0.15:
+        kw["mass_numbers"] = [periodictable.to_A(s) for s in syms]
+    if "fragments" not in kw and rng.random() < 0.25:
+        kw["fragments"] = [list(range(n))]
+        kw.pop("molecular_charge", None)
+        if rng.random() < 0.5:
+            kw["fragment_charges"] = [0.0]
+    if rng.random() < 0.3:
+        kw["symbols"] = [rng.choice([s.lower(), s.upper(), s]) for s in syms]
+    if rng.random() < 0.15:
+        kw["validated"] = False
+    if rng.random() < 0.15:
+        kw["schema_version"] = 2
+    if rng.random() < 0.1:
+        kw["schema_name"] = "qcschema_molecule"
+    if rng.random() < 0.04:
+        kw["schema_version"] = rng.choice([1, 3])  # refused: from_schema finds no "molecule" entry / unknown version
+    return kw
+
+
+def moldict_diffs(ms, md, exact_geometry=True):
+    """ms: implementation dictionary; md: parse_moldict(...) of the model's.  Exact comparison of the 19 keys."""
+    diffs = []
+    for k in MD_KEYS:
+        iv, mv = ms.get(k), md[k]
+        if (iv is None) != (mv is None):
+            diffs.append(k + "(presence)")
+            continue
+        if iv is None:
+            continue
+        try:
+            ev = exact(iv)
+            if k == "geometry":
+                ev = exact(np.asarray(iv, dtype=float).ravel())
+                ok = num_eq(ev, mv) if exact_geometry else (len(ev) == len(mv) and all(close(a, b) for a, b in zip(ev, mv)))
+            elif k == "connectivity":
+                ok = num_eq([list(t) for t in ev], [list(t) for t in mv])
+            else:
+                ok = num_eq(ev, mv)
+        except Unsupported:
+            ok = False
+        if not ok:
+            diffs.append(k)
+    return diffs
+
+
+def same_value(a, b):
+    """deep exact equality of two dict() outputs (ndarrays by value and shape, floats exactly, models by dict)"""
+    if isinstance(a, np.ndarray) or isinstance(b, np.ndarray):
+        if not (isinstance(a, np.ndarray) and isinstance(b, np.ndarray)) or a.shape != b.shape or a.dtype.kind != b.dtype.kind:
+            return False
+        return a.tolist() == b.tolist() and all(math.copysign(1, x) == math.copysign(1, y) for x, y in zip(a.ravel().tolist(), b.ravel().tolist())
+                                                  if isinstance(x, float))
+    if isinstance(a, dict) and isinstance(b, dict):
+        return list(a) == list(b) and all(same_value(a[k], b[k]) for k in a)
+    if isinstance(a, (list, tuple)) and isinstance(b, (list, tuple)):
+        return type(a) == type(b) and len(a) == len(b) and all(same_value(x, y) for x, y in zip(a, b))
+    return type(a) == type(b) and a == b
+
+
+def check_construct(ctx, out: Outcome, kwlist):
+    """kwlist: list of Molecule kwargs.  `Molecule(**kwargs).dict()` vs the model's prediction (keys and values), the
+    unmodelled keys by their stated rule, and `Molecule(**mol.dict()).dict()` vs `mol.dict()` (dict_fixed_point)."""
+    import qcelemental as qcel
+    from qcelemental import periodictable
+    from qcelemental.molparse import from_schema
+    from qcelemental.molparse.to_string import formula_generator
+
+    Molecule = qcel.models.Molecule
+    dflt = bohr_factor_default()
+    lines, meta = [], []
+    for kw in kwlist:
+        case = {"stream": "construct", "kwargs": kw}
+        kwr = revive(copy.deepcopy(kw))
+        try:
+            with contextlib.redirect_stdout(io.StringIO()):
+                m = Molecule(**copy.deepcopy(kwr))
+            impl = ("ok", m)
+        except Exception as e:
+            impl = ("err", err_class(e))
+        out.evaluations += 1
+        out.count("construct:" + (impl[0] if impl[0] == "ok" else "err:" + impl[1]))
+        # the value of the from_arrays parameter: what from_schema returns for these kwargs
+        sd = {**copy.deepcopy(kwr), "schema_name": kwr.get("schema_name", "qcschema_molecule"), "schema_version": kwr.get("schema_version", 2)}
+        try:
+            with contextlib.redirect_stdout(io.StringIO()):
+                rec = from_schema(sd)
+        except Exception as e:
+            rec = None
+            if impl[0] == "ok":
+                out.mismatches.append(Finding("mismatch:construct", case, observed="Molecule built", expected="from_schema raises " + err_class(e), detail="Molecule(**kwargs) succeeded although from_schema(kwargs) is refused"))
+            continue
+        try:
+            dm = [periodictable.to_mass(e) for e in rec["elem"]]
+            line = "|".join(["construct", optS(kwr.get("schema_name"), enc_str), optS(kwr.get("schema_version"), lambda x: str(int(x))),
+                             fr(dflt), enc_str(formula_generator(rec["elem"])), lst(dm, fr)]
+                            + moldict_fields(kwr) + molrec_line(rec, 2, dflt, "x").split("|")[4:])
+        except Exception as e:
+            out.count("construct_unencodable:" + type(e).__name__)
+            continue
+        lines.append(line)
+        meta.append((case, kwr, impl))
+    model_out = [None] * len(lines)
+    if ctx.model_available:
+        model_out = ctx.run_model(DRIVER, lines)
+    for (case, kwr, impl), ml in zip(meta, model_out):
+        kw = case["kwargs"]
+        if impl[0] == "err":
+            if ml is not None and not ml.startswith("err"):
+                out.mismatches.append(Finding("mismatch:construct", case, observed="err " + impl[1], expected=ml[:200], detail="Molecule(**kwargs) raised after from_schema accepted the kwargs; the model builds the object"))
+            continue
+        m = impl[1]
+        d = m.dict()
+        out.nontrivial(("construct", tuple(sorted(d)), tuple(sorted(k for k in kw if k in MD_KEYS))))
+        for k in MD_KEYS:
+            if k in d and k not in ("symbols", "geometry", "validated", "name", "molecular_charge", "molecular_multiplicity", "fix_com", "fix_orientation"):
+                out.count("dict_key:" + k + (":caller" if k in kw else ":schema"))
+        # ---- unmodelled keys: stated rule
+        diffs = []
+        extra = set(d) - set(MD_KEYS) - UNMODELLED_DICT_KEYS
+        if extra:
+            diffs.append("unexpected keys " + ",".join(sorted(extra)))
+        if d.get("schema_name") != "qcschema_molecule" or d.get("schema_version") != 2:
+            diffs.append("schema_name/schema_version")
+        if not same_value(d.get("extras"), kwr.get("extras", {})):
+            diffs.append("extras")
+        for k in ("identifiers", "id"):
+            if (k in d) != (k in kwr):
+                diffs.append(k + "(presence)")
+        if (d.get("provenance") or {}).get("routine") != "qcelemental.molparse.from_schema":
+            diffs.append("provenance")
+        # ---- the 19 modelled keys against the model
+        if ml is not None:
+            parts = ml.split("|")
+            if parts[0] != "ok" or len(parts) != 25:
+                out.mismatches.append(Finding("mismatch:construct", case, observed="Molecule built; dict keys " + ",".join(sorted(d)), expected=ml[:200], detail="the model does not build the object"))
+            else:
+                try:
+                    md = parse_moldict(parts[1:20])
+                    diffs += moldict_diffs(d, md)
+                    if parts[20] != "T":
+                        diffs.append("model: rebuild(dict m) != m")
+                    if parts[21] != "T":
+                        diffs.append("agreesB false: from_schema/to_schema changed a hash entry the caller spelled out (hypothesis of molecule_canon_of_record)")
+                    out.count("construct:singleOkB=" + parts[22])
+                    # the embedding molVal (Props/C09Typed.lean): typed, and emitted exactly as the implementation's JSON
+                    if parts[23] != "T":
+                        diffs.append("model: molVal(dict) does not inhabit the declared type (contradicts dict_hasType)")
+                    doc = json.loads(m.json(exclude_unset=True, exclude_none=True))
+                    want = {k: v for k, v in canon(doc).items() if k not in ("provenance", "extras", "identifiers", "id")}
+                    got = parse_model_json(parts[24])
+                    if got != want:
+                        diffs.append("emit(molVal) vs Molecule.json(): " + first_diff(got, want))
+                except Exception as ex:
+                    diffs.append("driver output not parseable: " + str(ex)[:100])
+        if diffs:
+            out.mismatches.append(Finding("mismatch:construct", case, observed={k.split("(")[0]: repr(d.get(k.split("(")[0]))[:160] for k in diffs}, expected=(ml or "")[:400],
+                                          detail="Molecule(**kwargs).dict() differs from the model (filter_defaults / merge / title / float_prep) in: " + ",".join(diffs)))
+        # ---- dict_fixed_point on the implementation: Molecule(**mol.dict()).dict() is mol.dict()
+        try:
+            with contextlib.redirect_stdout(io.StringIO()):
+                m2 = Molecule(**copy.deepcopy(d))
+            d2 = m2.dict()
+            bad = [k for k in sorted(set(d) | set(d2)) if k not in d or k not in d2 or not same_value(d[k], d2[k])]
+            if bad:
+                out.mismatches.append(Finding("mismatch:dict_rebuild", case, observed={k: repr(d2.get(k))[:160] for k in bad}, expected={k: repr(d.get(k))[:160] for k in bad},
+                                              detail="Molecule(**mol.dict()).dict() differs from mol.dict() (model: rebuild (dict m) = m) in: " + ",".join(bad)))
+            # the property clause itself (oracle): equal, same hash
+            if not (m2 == m and m2.get_hash() == m.get_hash()):
+                out.violations.append(Finding("oracle:rebuild_kwargs", case, observed=m2.get_hash(), expected=m.get_hash(), detail="Molecule rebuilt from its own dictionary differs / has another hash"))
+        except Exception as e:
+            out.violations.append(Finding("oracle:rebuild_kwargs", case, observed=err_class(e) + ": " + str(e)[:200], detail="Molecule cannot be rebuilt from its own dictionary"))
+
+
+def run_partc(ctx, out: Outcome):
+    rng = ctx.rng
+    check_construct(ctx, out, [gen_construct_kwargs(rng) for _ in range(ctx.scale(260, 2500))])
+
+
+# ------------------------------------------------------------------------------------------------------
 
 
 def tie_and_wf(ctx, out: Outcome):
@@ -1442,6 +1692,7 @@ def run(ctx: Ctx) -> Outcome:
             nmol += 1
             check_molecule_rebuild(ctx, out, inst, case)
     run_partb(ctx, out)
+    run_partc(ctx, out)
     out.exhaustive = False
     out.notes.append("all streams sampled from VERIF_SEED; the schema tie and the pattern table are exhaustive over what the six schemas contain")
     return out
@@ -1460,6 +1711,8 @@ def replay(ctx: Ctx, case) -> Outcome:
         check_toschema(ctx, out, [(case["from_arrays"], rec)])
     elif stream == "schema_dict":
         check_fromschema(ctx, out, [("replay", case["dict"])])
+    elif stream == "construct":
+        check_construct(ctx, out, [case["kwargs"]])
     elif stream == "document":
         model, d2 = case["model"], case["document"]
         ml = ctx.run_model(DRIVER, [f"val|{model}|{enc_json(d2)}"])[0] if ctx.model_available else None
